@@ -1107,7 +1107,7 @@ func (L *layouts) bufferReader(fn *ssa.Function) *rsum {
 			return nil
 		}
 		sub := L.bufferReader(cal)
-		if sub.bad != "" || len(sub.raw) != 1 {
+		if sub.bad != "" || len(sub.rets) != 1 || len(sub.raw) < 1 {
 			s.bad = "nested " + cal.Name() + ": " + sub.bad
 			callRes[call] = nil
 			return nil
@@ -1277,6 +1277,20 @@ func (s *rsum) finish() {
 	sort.Slice(s.rets, func(i, j int) bool {
 		return strings.Join(s.rets[i].conds, "&") < strings.Join(s.rets[j].conds, "&")
 	})
+	// several ways out that decode the same thing under the same data conditions (e.g. one return per
+	// allocator branch) are one
+	{
+		var uniq []rret
+		seen := map[string]bool{}
+		for _, rt := range s.rets {
+			k := strings.Join(rt.conds, "&") + "→" + strings.Join(rt.results, ",") + "/" + rt.consumed
+			if !seen[k] {
+				seen[k] = true
+				uniq = append(uniq, rt)
+			}
+		}
+		s.rets = uniq
+	}
 	// if c { return true } ; return false  ≡  return c
 	if len(s.rets) == 2 && len(s.rets[0].conds) == 1 && len(s.rets[1].conds) == 1 && s.rets[0].consumed == s.rets[1].consumed && len(s.rets[0].results) == len(s.rets[1].results) {
 		a, b := s.rets[0], s.rets[1]
@@ -1424,7 +1438,7 @@ func (L *layouts) streamReader(fn *ssa.Function) *rsum {
 				running = running.add(lpos{syms: []*bx{ln}})
 			case cal != nil && cal.Signature.Recv() != nil && len(com.Args) > 0 && com.Args[0] == ssa.Value(fn.Params[0]) && strings.HasPrefix(cal.Name(), "Read"):
 				sub := L.streamReader(cal)
-				if sub.bad != "" || len(sub.raw) != 1 {
+				if sub.bad != "" || len(sub.rets) != 1 || len(sub.raw) < 1 {
 					s.bad = "nested " + cal.Name() + ": " + sub.bad
 					inlined[call] = nil
 					continue
